@@ -124,8 +124,8 @@ var extTable = map[string]*ExtEntry{
 	"(*sync.Map).Load":             {Alias: []int{0}},
 	"(*sync.Map).Range":            {},
 	"(*sync.Pool).Put":             {WritesDeep: []int{0}, Retains: [][2]int{{0, 1}}},
-	"(*sync.Pool).Get":             {WritesDeep: []int{0}, Alias: []int{0}},
-	"(*sync.Once).Do":              {}, // the Once itself is a synchronisation primitive (like a mutex); the function it runs: see call()
+	"(*sync.Pool).Get":             {WritesDeep: []int{0}}, // the object handed out belongs to the caller until it is Put back (ownership: C10-R7.pool)
+	"(*sync.Once).Do":              {},                     // the Once itself is a synchronisation primitive (like a mutex); the function it runs: see call()
 	// atomics write their target
 	"sync/atomic.StoreInt32": {Writes: []int{0}}, "sync/atomic.StoreInt64": {Writes: []int{0}},
 	"sync/atomic.StoreUint32": {Writes: []int{0}}, "sync/atomic.StoreUint64": {Writes: []int{0}},
